@@ -198,10 +198,9 @@ func (r *ReconcileExperiment) Reconcile(ctx context.Context, request reconcile.R
 		}
 		// Check if experiment is restartable and max trials is reconfigured
 		// That means experiment is restarting
-		if (util.IsCompletedExperimentRestartable(instance) &&
+		if util.IsCompletedExperimentRestartable(instance) &&
 			instance.Spec.MaxTrialCount != nil &&
-			*instance.Spec.MaxTrialCount > instance.Status.Trials) ||
-			(instance.Spec.MaxTrialCount == nil && instance.Status.Trials != 0) {
+			*instance.Spec.MaxTrialCount > instance.Status.Trials {
 			logger.Info("Experiment is restarting",
 				"MaxTrialCount", instance.Spec.MaxTrialCount,
 				"ParallelTrialCount", instance.Spec.ParallelTrialCount,
